@@ -351,7 +351,9 @@ class CSSSerializer(object):
         indent a block like a CSSStyleDeclaration to the given level
         which may be higher than self._level (e.g. for CSSStyleDeclaration)
         """
-        if not self.prefs.lineSeparator:
+        if not self.prefs.lineSeparator.strip(' \t'):
+            # no line ends, or "lines" end with spaces only: everything is
+            # on one line and splitting there would cut strings and URLs
             return text
         return self.prefs.lineSeparator.join(
             ['%s%s' % (level * self.prefs.indent, line)
